@@ -1468,6 +1468,7 @@ int QSexact_solver (mpq_QSdata * p_mpq,
 	{
 		QSlog("Trying double precision");
 	}
+	QSVERIF_EVENT("exact.level.dbl", 53, simplexalgo);
 	p_dbl = QScopy_prob_mpq_dbl (p_mpq, "dbl_problem");
 	if(__QS_SB_VERB <= DEBUG) p_dbl->simplex_display = 1;
 	if (ebasis && ebasis->nstruct)
@@ -1502,6 +1503,7 @@ int QSexact_solver (mpq_QSdata * p_mpq,
 		basis = dbl_QSget_basis (p_dbl);
 		if (QSexact_optimal_test (p_mpq, x_mpq, y_mpq, basis))
 		{
+			QSVERIF_EVENT("exact.accept.opt.direct", 53, 0);
 			optimal_output (p_mpq, x, y, x_mpq, y_mpq);
 			goto CLEANUP;
 		}
@@ -1518,11 +1520,13 @@ int QSexact_solver (mpq_QSdata * p_mpq,
 				EGcallD(mpq_QSget_pi_array (p_mpq, y_mpq));
 				if (QSexact_optimal_test (p_mpq, x_mpq, y_mpq, basis))
 				{
+					QSVERIF_EVENT("exact.accept.opt.resolve", 53, 0);
 					optimal_output (p_mpq, x, y, x_mpq, y_mpq);
 					goto CLEANUP;
 				}
 				else
 				{
+					QSVERIF_EVENT("exact.retest.fail", *status, 0);
 					last_status = *status = QS_LP_UNSOLVED;
 				}
 			}
@@ -1549,6 +1553,7 @@ int QSexact_solver (mpq_QSdata * p_mpq,
 		dbl_EGlpNumFreeArray (y_dbl);
 		if (QSexact_infeasible_test (p_mpq, y_mpq))
 		{
+			QSVERIF_EVENT("exact.accept.inf.direct", 53, 0);
 			infeasible_output (p_mpq, y, y_mpq);
 			goto CLEANUP;
 		}
@@ -1571,11 +1576,13 @@ int QSexact_solver (mpq_QSdata * p_mpq,
 				EGcallD(mpq_QSget_infeas_array (p_mpq, y_mpq));
 				if (QSexact_infeasible_test (p_mpq, y_mpq))
 				{
+					QSVERIF_EVENT("exact.accept.inf.resolve", 53, 0);
 					infeasible_output (p_mpq, y, y_mpq);
 					goto CLEANUP;
 				}
 				else
 				{
+					QSVERIF_EVENT("exact.retest.fail", *status, 0);
 					last_status = *status = QS_LP_UNSOLVED;
 				}
 			}
@@ -1610,6 +1617,7 @@ int QSexact_solver (mpq_QSdata * p_mpq,
 		{
 			QSlog("Trying mpf with %u bits", precision);
 		}
+		QSVERIF_EVENT("exact.level.mpf", precision, last_status);
 		p_mpf = QScopy_prob_mpq_mpf (p_mpq, "mpf_problem");
 		if(DEBUG >= __QS_SB_VERB)
 		{
@@ -1682,6 +1690,7 @@ int QSexact_solver (mpq_QSdata * p_mpq,
 			mpf_EGlpNumFreeArray (y_mpf);
 			if (QSexact_optimal_test (p_mpq, x_mpq, y_mpq, basis))
 			{
+				QSVERIF_EVENT("exact.accept.opt.direct", precision, 0);
 				optimal_output (p_mpq, x, y, x_mpq, y_mpq);
 				goto CLEANUP;
 			}
@@ -1695,11 +1704,13 @@ int QSexact_solver (mpq_QSdata * p_mpq,
 					EGcallD(mpq_QSget_pi_array (p_mpq, y_mpq));
 					if (QSexact_optimal_test (p_mpq, x_mpq, y_mpq, basis))
 					{
+						QSVERIF_EVENT("exact.accept.opt.resolve", precision, 0);
 						optimal_output (p_mpq, x, y, x_mpq, y_mpq);
 						goto CLEANUP;
 					}
 					else
 					{
+						QSVERIF_EVENT("exact.retest.fail", *status, 0);
 						last_status = *status = QS_LP_UNSOLVED;
 					}
 				}
@@ -1716,6 +1727,7 @@ int QSexact_solver (mpq_QSdata * p_mpq,
 			mpf_EGlpNumFreeArray (y_mpf);
 			if (QSexact_infeasible_test (p_mpq, y_mpq))
 			{
+				QSVERIF_EVENT("exact.accept.inf.direct", precision, 0);
 				infeasible_output (p_mpq, y, y_mpq);
 				goto CLEANUP;
 			}
@@ -1738,11 +1750,13 @@ int QSexact_solver (mpq_QSdata * p_mpq,
 					EGcallD(mpq_QSget_infeas_array (p_mpq, y_mpq));
 					if (QSexact_infeasible_test (p_mpq, y_mpq))
 					{
+						QSVERIF_EVENT("exact.accept.inf.resolve", precision, 0);
 						infeasible_output (p_mpq, y, y_mpq);
 						goto CLEANUP;
 					}
 					else
 					{
+						QSVERIF_EVENT("exact.retest.fail", *status, 0);
 						last_status = *status = QS_LP_UNSOLVED;
 					}
 				}
@@ -1764,6 +1778,7 @@ int QSexact_solver (mpq_QSdata * p_mpq,
 		mpf_QSfree_prob (p_mpf);
 		p_mpf = 0;
 	}
+	QSVERIF_EVENT("exact.giveup", last_status, *status);
 	/* ending */
 CLEANUP:
 	dbl_EGlpNumFreeArray (x_dbl);
